@@ -440,7 +440,10 @@ func (gs *GenState) genMeta(r *rand.Rand, gi *GenIdx) map[string]any {
 				m["color"] = pick(r, metaStrings[:4])
 			}
 		case 5:
-			if gi != nil && len(gi.Cfg.AutoLinks) > 0 {
+			if gi != nil && gi.Cfg.Mem != nil && gi.Cfg.Mem.Enabled && r.Intn(2) == 0 {
+				// historical data: the owner supplies the creation time; every insert path stores it unchanged
+				m["_created_at"] = float64(946684800 - 86400*r.Intn(30))
+			} else if gi != nil && len(gi.Cfg.AutoLinks) > 0 {
 				m[gi.Cfg.AutoLinks[0].MetadataField] = pick(r, []string{"p0", "p1"})
 			} else {
 				m["rank"] = float64(r.Intn(4))
